@@ -55,6 +55,20 @@ def run(ctx):
         if s["place"]["l"] == 0 and norm(ic.rv_origin(s["rv"]), g) == ("int", 0):
             okn = any(atom_norm(a, g)[0] == "rel" and atom_norm(a, g)[1] == "Lt" and atom_norm(a, g)[3] == ("int", 0) and is_call(a[2], "compare_renumbered_from") for a in ic.facts_at(bi))
     ctx.require(okr, "T4-canonical-all-starts", ic.name, "start-range", "every re-basing start 1..len() is compared", "is_canonical does not try every start row 1..len()")
+    for bi, t in ic.calls(exact="fpgroups::cosets::compare_renumbered_from"):
+        every_iteration_reaches(ctx, "T3-no-skipped-start", ic, bi, "start-loop->compare_renumbered_from", "some re-basing start is skipped or the loop is left early: non-canonical tables survive")
+    trues = [bi for bi, si, s in ic.assigns() if s["place"]["l"] == 0 and norm(ic.rv_origin(s["rv"]), g) == ("int", 1)]
+    okt = bool(trues) and all(any(a[0] == "variant" and a[2] == 0 and is_call(a[1], "Iterator::next") for a in ic.facts_at(bi)) for bi in trues)
+    ctx.require(okt, "T3-canonical-true-after-exhaustion", ic.name, "return true", "`true` only after every start was compared", "is_canonical can return true before all starts were compared")
+    for bi, t in pc.calls(exact="fpgroups::cosets::derived_table"):
+        every_iteration_reaches(ctx, "T3-no-skipped-position", pc, bi, "pos-loop->derived_table", "some target row is skipped: subgroups are missed")
+    for bi, t in dt.calls(exact="fpgroups::cosets::scan_both_ways"):
+        every_iteration_reaches(ctx, "T3-no-skipped-relator", dt, bi, "rel-loop->scan_both_ways", "some relator is not scanned at a queued row: contradictions/deductions are missed")
+    lp = [l for l in loops_in(pc)]
+    for h, e, it in lp:
+        extra = sorted(loop_carried_mutables(pc, h, e) - {"iter", "result"})
+        ctx.ob("T3-per-candidate-state", pc.name, "loop-carried state", "ok" if not extra else "violation",
+               "only the result vector is carried between candidate positions" if not extra else "state %s is carried from one candidate position to the next" % extra)
     ctx.require(okn, "T3-canonical-rejects-smaller", ic.name, "return false", "a table is rejected exactly when a re-basing compares smaller (< 0)", "is_canonical's `false` is not guarded by compare_renumbered_from(..) < 0")
 
     # (2) derived_table
